@@ -30,7 +30,10 @@ def main():
     if "--checks" in a:
         checks = a[a.index("--checks") + 1].split(",")
     tier = a[a.index("--tier") + 1] if "--tier" in a else "quick"
-    wt = f"/tmp/seed/{pid}"
+    wt = os.environ.get("SEED_WT_BASE", "/tmp/seed") + f"/{pid}"
+    if not os.path.isdir(wt):
+        os.makedirs(os.path.dirname(wt), exist_ok=True)
+        subprocess.run(["git", "-C", "/repo", "worktree", "add", "-q", "--detach", wt, "HEAD"], check=True)
     src = None
     for cand in (f"{wt}/SEED/{n}", f"{wt}/_SEED/{n}"):
         if os.path.isdir(cand):
@@ -102,7 +105,11 @@ def main():
     if "--nocheck" not in a and ok:
         for c in checks:
             t0 = time.time()
-            r = subprocess.run(["/verif/tools/mutcheck.sh", patch, c, tier], capture_output=True, text=True)
+            menv = dict(os.environ)
+            if os.environ.get("SEED_CHECK_IN_WT"):
+                # run the check against the scratch worktree instead of /repo (several lanes in parallel)
+                menv["VERIF_REPO"] = wt
+            r = subprocess.run(["/verif/tools/mutcheck.sh", patch, c, tier], capture_output=True, text=True, env=menv)
             lines = [l for l in r.stdout.splitlines() if l.startswith("VIOLATION") or l.startswith("  (") or l.startswith("INCONCLUSIVE")]
             det[c] = {"rc": r.returncode, "detected": r.returncode == 1, "tier": tier, "wall_s": round(time.time() - t0, 1), "report": lines[:4]}
     old = {}
